@@ -32,6 +32,10 @@ def gen_corpus(rng: random.Random, today: dt.date) -> tuple[ZDir, dict]:
     for nm in names:
         d = rng.choice(DIRS)
         rels.append((d + "/" if d else "") + nm + ".zo")
+    # a page whose name is also the name of a sub-directory that holds pages (sub.zo next to sub/x.zo)
+    for d in ("sub", "d2"):
+        if any(r.startswith(d + "/") for r in rels) and d + ".zo" not in rels and rng.random() < 0.5:
+            rels.append(d + ".zo")
     if rng.random() < 0.35:
         base = rng.choice(rels).split("/")[-1]
         for d in rng.sample(["", "sub", "d2", "other"], 4):
